@@ -121,3 +121,6 @@ contract("iface::Extractor.__call__", params=["self", "exception"], returns="dic
          ensures=[("recorded", "CALLS == old(CALLS) + [Ev('ret', self, exception, None, result)]"),
                   ("result-is-its-own", "fresh(result) or forall(lambda a: box(result) != a._identification and box(result) != a._successFields, 'ref:obj')")],
          raises=[{"cls": "BaseException", "ensures": [("recorded", "CALLS == old(CALLS) + [Ev('exc', self, exception, None, exc)]")]}])
+
+from pyvc.spec import wf_fields
+wf_fields("_identification", "_successFields")
